@@ -538,7 +538,10 @@ func (k *c17Case) gather() {
 // names and key sets include pairs that coincide when name and sorted keys are joined with '_' (or any other
 // character legal in both): m_x + {a} vs m + {x_a}; q1 + {a_b} vs q1 + {a, b}; a + {b} vs a_b + {}
 var c17Names = []string{"requests", "latency", "a", "A:b_9", "_x", "rpc:calls_total", "q1", "m_2", "m", "m_x", "a_b"}
-var c17KeySets = [][]string{{}, {"a"}, {"a", "b"}, {"env", "region"}, {"_k", "z9"}, {"b"}, {"a_b"}, {"x_a"}, {"env_region"}}
+
+// "le" and "quantile" are label names the client reserves for histograms and summaries respectively; for every OTHER kind
+// they are ordinary, valid label names (doUse leaves out the two combinations the client itself refuses)
+var c17KeySets = [][]string{{}, {"a"}, {"a", "b"}, {"env", "region"}, {"_k", "z9"}, {"b"}, {"a_b"}, {"x_a"}, {"env_region"}, {"le"}, {"a", "quantile"}}
 var c17Values = []string{"x", "y", "", "prod", "é", "a,b=c+d", "line\nbreak", "\"q\"", "0", "世界"}
 
 var c17ValuePool = []float64{0, math.Copysign(0, -1), 1, -1, 0.5, 2, 2.5, 10, -10, 100, 1e-300, -1e-300, 5e-324, 1e300, -1e300, 3, 7,
@@ -659,6 +662,7 @@ func suiteC17(c *Ctx) {
 		c17HistoryCase(c, root.Fork())
 	}
 	c17LetterCases(c)
+	c17FreshRegistryCases(c)
 }
 
 func c17HistoryCase(c *Ctx, r *Rng) {
@@ -716,6 +720,18 @@ func c17HistoryCase(c *Ctx, r *Rng) {
 	seriesPerName := map[string]int{}
 	transcript := []string{fmt.Sprintf("hist=%v cb=%v", hist, cbPanics)}
 	doUse := func(m c17Metric, tags map[string]string) {
+		if _, le := tags["le"]; le && (m.kind == "hv" || m.kind == "hd" || (m.kind == "t" && hist)) {
+			return // not a Prometheus-valid tag set for a histogram
+		}
+		if _, q := tags["quantile"]; q && m.kind == "t" && !hist {
+			return // not a Prometheus-valid tag set for a summary
+		}
+		if _, le := tags["le"]; le {
+			c.Cov.Hit("history.label-named-le-on-" + m.kind)
+		}
+		if _, q := tags["quantile"]; q {
+			c.Cov.Hit("history.label-named-quantile-on-" + m.kind)
+		}
 		key := m.kind[:1] + "|" + m.name + "|" + mapHex(tags)
 		ser := m.name + "|" + mapHex(tags)
 		if used[key] {
@@ -1192,5 +1208,84 @@ func c17LetterCases(c *Ctx) {
 		d := time.Duration(1) << 60
 		p, v := catch(func() { rep.AllocateHistogram("hc", map[string]string{}, tally.DurationBuckets{d, d + 1}) })
 		note(fmt.Sprintf("outside the claimed domain (duration bounds distinct after conversion to float seconds, |d| <= 2^50 ns generated): DurationBuckets{2^60, 2^60+1}: panic=%v %v", p, v))
+	}
+}
+
+// c17FreshRegistryCases: on a FRESH registry nothing can conflict, so every first use with a Prometheus-valid name and
+// tag set must be accepted (no callback) and its records must show in Gather() - in particular with the label names
+// the client reserves for ONE kind only: "le" (histograms) on counters, gauges and summaries, "quantile" (summaries) on
+// counters, gauges and histograms.  Model-independent.
+func c17FreshRegistryCases(c *Ctx) {
+	type cse struct{ kind, key string }
+	var cases []cse
+	for _, key := range []string{"le", "quantile", "region"} {
+		for _, kind := range []string{"counter", "gauge", "timer-summary", "timer-histogram", "histogram"} {
+			if key == "le" && (kind == "timer-histogram" || kind == "histogram") {
+				continue
+			}
+			if key == "quantile" && kind == "timer-summary" {
+				continue
+			}
+			cases = append(cases, cse{kind, key})
+		}
+	}
+	for _, k := range cases {
+		reg := prom.NewRegistry()
+		tt := prometheus.SummaryTimerType
+		if k.kind == "timer-histogram" {
+			tt = prometheus.HistogramTimerType
+		}
+		var cbErrs []string
+		rep := prometheus.NewReporter(prometheus.Options{Registerer: reg, DefaultTimerType: tt, OnRegisterError: func(err error) { cbErrs = append(cbErrs, err.Error()) }})
+		tags := map[string]string{k.key: "x"}
+		line := fmt.Sprintf("fresh registry, %s fresh_m with tags %v, two records, Gather", k.kind, tags)
+		p, v := catch(func() {
+			switch k.kind {
+			case "counter":
+				m := rep.AllocateCounter("fresh_m", tags)
+				m.ReportCount(1)
+				m.ReportCount(1)
+			case "gauge":
+				m := rep.AllocateGauge("fresh_m", tags)
+				m.ReportGauge(1)
+				m.ReportGauge(2)
+			case "timer-summary", "timer-histogram":
+				m := rep.AllocateTimer("fresh_m", tags)
+				m.ReportTimer(time.Second)
+				m.ReportTimer(time.Second)
+			case "histogram":
+				h := rep.AllocateHistogram("fresh_m", tags, tally.ValueBuckets{1, 2})
+				h.ValueBucket(1, 2).ReportSamples(2)
+			}
+		})
+		if p {
+			c.Cov.Fail(Failure{Kind: "violated", Clause: "no-panic", Signature: "c17-fresh-registry-panic", Line: line, Reply: fmt.Sprint(v)})
+			continue
+		}
+		got := ""
+		mfs, _ := reg.Gather()
+		for _, mf := range mfs {
+			if mf.GetName() != "fresh_m" {
+				continue
+			}
+			for _, m := range mf.GetMetric() {
+				switch {
+				case m.GetCounter() != nil:
+					got = fmt.Sprint(m.GetCounter().GetValue())
+				case m.GetGauge() != nil:
+					got = fmt.Sprint(m.GetGauge().GetValue())
+				case m.GetSummary() != nil:
+					got = fmt.Sprint(float64(m.GetSummary().GetSampleCount()))
+				case m.GetHistogram() != nil:
+					got = fmt.Sprint(float64(m.GetHistogram().GetSampleCount()))
+				}
+			}
+		}
+		if len(cbErrs) > 0 || got != "2" {
+			c.Cov.Fail(Failure{Kind: "violated", Clause: "accepted-registration-is-shown", Signature: "c17-fresh-registry-valid-tag-set-refused", Line: line,
+				Reply: fmt.Sprintf("error callback: %v; value / sample count gathered for fresh_m: %q (expected 2)", cbErrs, got)})
+		}
+		c.Cov.Hit("fresh-registry." + k.kind + "." + k.key)
+		c.Cov.Eval(line, true)
 	}
 }
